@@ -3,7 +3,7 @@
 use crate::engine::{Obs, PResult, Run};
 use crate::fl::Fl;
 use crate::gen::{self, Sample};
-use crate::meanref::{crit, cdf_tol_t, MeanRef, CDF_TOL_Z, POPULATION_LIMIT};
+use crate::meanref::{cdf_tol_t_at, crit, MeanRef, CDF_TOL_Z, POPULATION_LIMIT};
 use crate::model::{bits_eq, bounds, call, ek, Conf, Out, EK};
 use crate::props::de;
 use crate::refmath as rm;
@@ -301,7 +301,7 @@ pub fn unpaired_ref<F: Fl>(ra: &MeanRef, rb: &MeanRef, conf: &Conf) -> Option<Un
         dc_dof = dc_dof.max((z - t).abs() * 1.5);
     }
     let dens = if dof < POPULATION_LIMIT { rm::t_pdf(dof.max(1.0), cr.c) } else { rm::norm_pdf(cr.c) };
-    let dc_q = if dof < POPULATION_LIMIT { cdf_tol_t(dmax) / dens } else { CDF_TOL_Z / dens } + 4e-16 * cr.c.abs();
+    let dc_q = if dof < POPULATION_LIMIT { cdf_tol_t_at(dmax, cr.c) / dens } else { CDF_TOL_Z / dens } + 4e-16 * cr.c.abs();
     let diff = ra.mean - rb.mean;
     let u = F::U;
     let dse = (dta + dtb) / (2.0 * se) * 1.01 + 6.0 * u * se;
